@@ -20,6 +20,10 @@ def sortedU (l : List Ptr) : List Ptr := (l.toArray.qsort (· < ·)).toList
 
 def fmtGet : Option Ptr → String
   | none => "nf"
+  | some v => if v.toNat = 18446744073709551615 then "nf" else toString v.toNat   -- a stored all-ones value reads as the not-found marker
+
+def fmtLast : Option Ptr → String
+  | none => "nf"
   | some v => toString v.toNat
 
 def step (s : St) (toks : List String) : IO (St × Bool) := do
@@ -91,7 +95,7 @@ def step (s : St) (toks : List String) : IO (St × Bool) := do
     return ({ s with l := l' }, false)
   | ["llast"] =>
     let r := lLast s.l
-    IO.println (fmtGet r ++ (if r = s.l.getLast? then "" else " SPECDIFF"))
+    IO.println (fmtLast r ++ (if r = s.l.getLast? then "" else " SPECDIFF"))
     return (s, false)
   | ["llen"] =>
     let r := lLength s.l
